@@ -230,7 +230,7 @@ def judge(chk: Check, traces: list[dict], label: str) -> None:
                     loc["renamed"] = any(re.fullmatch(re.escape(n) + r"_?\d+", c) for c in t.get("_classes", []))
                 if clause == "C02.inherited_lost":
                     # was an ancestor answered with a cycle placeholder while this schema was parsed?
-                    anc = {e["to"] for e in scen["edges"] if e["kind"] in ("allOf", "alias")}
+                    anc = {e["to"] for e in scen["edges"] if e["kind"] in ("allOf", "allOfReq", "alias")}
                     loc["ancestor_cut"] = bool(anc & set(info.get("cut", [])))
                 if clause in ("C02.kind", "C02.required_flag", "C02.field_extra"):
                     loc["edge_kinds"] = kinds_lost
@@ -254,17 +254,19 @@ def run(chk: Check) -> None:
         "documents the loader rejects visibly are counted as not_accepted and not judged",
         "structural kinds are compared after projecting annotations onto the Docs.tla kind vocabulary (harness/c02.py norm_kind)",
     ]
-    kinds = [k for k in ALL_KINDS if k != "alias"]  # bare-$ref alias schemas are rejected visibly by the loader (see C08 DRIFT)
+    kinds = [k for k in ALL_KINDS if k != "alias"] + ["allOfReq", "addl"]  # bare-$ref alias schemas are rejected visibly by the loader (see C08 DRIFT)
     fams = [(["A", "B"], 2, (False,)), (["A", "B"], 1, (False, True)), (["User", "UserGroup"], 2, (False,)), (["Node", "NodeItem"], 2, (False,)), (["P", "Q"], 2, (False, True))]
     if thorough:
         fams = [(["A", "B"], 2, (False, True)), (["User", "UserGroup"], 2, (False, True)), (["Node", "NodeItem"], 2, (False,)), (["Children", "ChildrenItem"], 2, (False,)), (["A", "B", "C"], 2, (False,))]
     for names, k, req in fams:
         # the {P,Q} family varies the required flag on two-edge graphs with inheritance (allOf) and plain references only
-        docs = gen_graphs(chk, names, kinds if names != ["P", "Q"] else ["allOf", "ref", "arr"], k, req=req)
+        base_kinds = [x for x in ALL_KINDS if x != "alias"]
+        docs = gen_graphs(chk, names, ["allOf", "allOfReq", "ref", "arr"] if names == ["P", "Q"] else kinds if names == ["A", "B"] or thorough else base_kinds, k, req=req)
         lab = "+".join(names)
         judge(chk, observe_ir(chk, docs, f"ir[{lab}]"), f"ir[{lab}]")
         if (names == ["A", "B"] and k == 2) or thorough:
-            sub = docs
+            # quick: a third of the family (seed picks the phase) goes through generation + import
+            sub = docs if thorough else [d for i, d in enumerate(docs) if (i + chk.seed) % 3 == 0 or any(e["kind"] in ("addl", "allOfReq") for e in d["edges"]) and (i + chk.seed) % 2 == 0]
             judge(chk, observe_import(chk, sub, f"imp[{lab}]"), f"import[{lab}]")
     if thorough:
         docs = gen_graphs(chk, ["A", "B", "C"], ["ref", "arr", "inline", "map", "oneOf", "allOf"], 3, req=(False,))
